@@ -200,7 +200,7 @@ def pipelines():
                    'distance_is_z': kw.get('distance') is z, 'wavelength_is_lam': kw.get('wavelength') is lam, 'dx_is_dx': kw.get('dx') is dx}
         out.append(('t_' + f, 'u K A', opshim.coq(term)))
     # propagate_beam dispatch + pad / crop placement
-    for name, zp in (('t_beam_nopad', [False, False, False]), ('t_beam_padcrop', [True, False, True])):
+    for name, zp in (('t_beam_nopad', [False, False, False]), ('t_beam_padcrop', [True, False, True]), ('t_beam_padonly', [True, False, False]), ('t_beam_croponly', [False, False, True])):
         for f in TORCH_PIPES:
             del calls[:]
             term = ns['propagate_beam'](u, k, z, dx, lam, propagation_type=TYPE_OF[f], zero_padding=zp, aperture=A)
